@@ -56,11 +56,13 @@ def zip_(*args: Observable[Any]) -> Observable[tuple[Any, ...]]:
                 ):
                     observer.on_completed()
 
+        @synchronized(lock)
         def completed(i: int) -> None:
             is_completed[i] = True
             if len(queues[i]) == 0:
                 observer.on_completed()
 
+        on_error = synchronized(lock)(observer.on_error)
         subscriptions: list[abc.DisposableBase | None] = [None] * n
 
         def func(i: int) -> None:
@@ -75,7 +77,7 @@ def zip_(*args: Observable[Any]) -> Observable[tuple[Any, ...]]:
                 next_(i)
 
             sad.disposable = source.subscribe(
-                on_next, observer.on_error, lambda: completed(i), scheduler=scheduler
+                on_next, on_error, lambda: completed(i), scheduler=scheduler
             )
             subscriptions[i] = sad
 
